@@ -297,8 +297,9 @@ def _validate_case(args):
     try:
         ens = ['ENSMUSG00000051951', 'ENSMUSG00000025900', 'ENSMUSG00000025902', 'ENSMUSG00000033845']
         sym = ['Xkr4', 'Rp1', 'Sox17', 'not_a_gene']
-        names = ens if scn['fixed'] else sym
-        nmapped = 4 if scn['fixed'] else 3
+        known = ['Xkr4', 'Rp1', 'Sox17', 'Mrpl15']
+        names = ens if scn['fixed'] else (sym if scn['unk'] else known)
+        nmapped = 3 if scn['unk'] else 4
         X = np.array([[rng.choice([0, 0, 1, 3, 25]) for _ in range(4)] for _ in range(5)], dtype=float)
         X[0, 0] = 30.0
         enc = rng.choice(['csr', 'csc', 'dense'])
@@ -309,7 +310,6 @@ def _validate_case(args):
             anndata.AnnData(X=M, obs=obs, var=pd.DataFrame(index=pd.Index(names, name='gene'))).write_h5ad(d / 'input.h5ad')
             cur = d / 'input.h5ad'
             steps = []
-            want_var = None
             for i, st in enumerate(scn['steps']):
                 cfg = {'h5ad_path': str(cur), 'output_json': str(d / f'manifest_{i}.json'), 'tmp_dir': str(d),
                        'log_path': str(d / f'log_{i}.txt')}
@@ -339,19 +339,16 @@ def _validate_case(args):
                     else:
                         ev['vkind'] = 'copy' if list(a.var.index) == list(a_in.var.index) else 'written'
                 got = list(a.var.index)
-                if want_var is None:
-                    ok_names = (got[:3] == ens[:3] and (got[3] == ens[3] if scn['fixed'] else
-                                                        (got[3] not in sym and not got[3].startswith('ENS'))))
-                    want_var = got
-                else:
-                    ok_names = got == want_var
+                # known genes by identifier; the unmappable one by a placeholder (whose text carries the time of the run)
+                ok_names = (got[:3] == ens[:3] and (got[3] == ens[3] if not scn['unk'] else
+                                                    (got[3] not in sym and not got[3].startswith('ENS'))))
                 Xo = a.X.toarray() if hasattr(a.X, 'toarray') else np.asarray(a.X)
                 ev['same'] = bool(ok_names and list(a.obs.index) == list(obs.index) and list(a.obs['note']) == list(obs['note'])
                                   and np.array_equal(np.asarray(Xo, dtype=float), X))
                 ev['rec'] = int(dict(a.uns).get('AIBS_CDM_n_mapped_genes', -1))
                 steps.append(ev)
                 cur = vp
-        return {'kind': 'validate', 'fixed': scn['fixed'], 'nmapped': nmapped, 'steps': steps, 'enc': enc}, None
+        return {'kind': 'validate', 'fixed': scn['fixed'], 'unk': scn['unk'], 'nmapped': nmapped, 'steps': steps, 'enc': enc}, None
     except Exception:
         return None, traceback.format_exc()
     finally:
@@ -454,7 +451,7 @@ def run(ctx):
                 'existing': r.get('existing', []), 'ok': r.get('ok', True), 'map': r.get('map', []), 'back': r.get('back', True),
                 'failat': r.get('failat', 'none'), 'left': r.get('left', []), 'outputs': r.get('outputs', []),
                 'config': r.get('config', 'none'), 'same': r.get('same', True), 'clean': r.get('clean', True), 'events': [0],
-                'fixed': r.get('fixed', False), 'nmapped': r.get('nmapped', 0),
+                'fixed': r.get('fixed', False), 'unk': r.get('unk', False), 'nmapped': r.get('nmapped', 0),
                 'steps': [{k: st[k] for k in ('dest', 'ok', 'vkind', 'same', 'rec')} for st in r.get('steps', [])]}
         lines.append(base)
     vs = validate(ctx, 'Runners_Trace', lines, 'Runners_Trace', cfg='Runners_Trace.cfg')
